@@ -23,14 +23,24 @@ type clientRegionCache struct {
 	logger *slog.Logger
 
 	regions map[hrpc.RegionClient]map[hrpc.RegionInfo]struct{}
+
+	// closed is set by closeAll: a closed cache accepts no new clients, so that a
+	// region being established while the client is closed cannot leave a
+	// connection behind
+	closed bool
 }
 
 // put associates a region with client for provided addrss. It returns the client if it's already
-// in cache or otherwise instantiates a new one by calling newClient.
+// in cache or otherwise instantiates a new one by calling newClient. It returns nil
+// if the cache has been closed.
 // TODO: obvious place for optimization (use map with address as key to lookup exisiting clients)
 func (rcc *clientRegionCache) put(addr string, r hrpc.RegionInfo,
 	newClient func() hrpc.RegionClient) hrpc.RegionClient {
 	rcc.m.Lock()
+	if rcc.closed {
+		rcc.m.Unlock()
+		return nil
+	}
 	for existingClient, regions := range rcc.regions {
 		// check if client already exists, checking by host and port
 		// because concurrent callers might try to put the same client
@@ -70,6 +80,7 @@ func (rcc *clientRegionCache) del(r hrpc.RegionInfo) {
 
 func (rcc *clientRegionCache) closeAll() {
 	rcc.m.Lock()
+	rcc.closed = true
 	for client, regions := range rcc.regions {
 		for region := range regions {
 			region.MarkUnavailable()
